@@ -197,7 +197,7 @@ ASSUME = [
     "every single allocation above 64 KiB fails with std::bad_alloc in harness and model alike (declared sizes beyond that are explored only up to the allocation)",
     "std::ifstream stands for std::istream; file name and FILE* share file_stream_device",
     "sub-rectangle settings are explored with non-negative dimensions and offsets within 2 KiB of the row buffer (ASan red zone)",
-    "uninitialised stack bytes consumed by istream_device after a short read are not modelled: the model answers `nondet` and the Spec alone judges the implementation there",
+    "a model answer `nondet:` (outcome depends on uninitialised bytes) would not be compared, only judged; none arises on the current tree (istream_device checks short reads since cdb7c21)",
 ]
 
 def obs_class(a):
